@@ -22,7 +22,9 @@ Definition builtin_exc_bases : list (string * list string) :=
    (* three distinct classes sharing one __name__: the model identifies a class by its catalogue name, i.e. by the class object *)
    ("UTwinA", ["Exception"]); ("UTwinB", ["Exception"]); ("UTwinK", ["KeyError"]);
    (* UFlakyBad is not a class of its own: it names the instances of UFlaky that cannot be rebuilt from their args *)
-   ("UFlaky", ["Exception"]); ("UFlakyBad", ["UFlaky"])].
+   ("UFlaky", ["Exception"]); ("UFlakyBad", ["UFlaky"]);
+   (* falsy exception objects (F31) and a user subclass of TypeMatchError (F32) *)
+   ("UFalsy", ["Exception"]); ("GFalsy", ["GlomError"]); ("GTypeMatchSub", ["TypeMatchError"])].
 
 Definition exc_bases : list (string * list string) := glom_exc_bases ++ builtin_exc_bases.
 
